@@ -19,10 +19,16 @@ from collections.abc import Iterable, Sequence
 import chartparse.globalevents
 from chartparse.event import Event
 from chartparse.exceptions import RegexNotMatchError, UnreachableError
-from chartparse.instrument import StarPowerEvent, TrackEvent
-from chartparse.sync import AnchorEvent, BPMEvent, BPMEvents, TimeSignatureEvent
 from chartparse.tick import Ticks
 from chartparse.util import DictPropertiesEqMixin, DictReprTruncatedSequencesMixin
+
+if typ.TYPE_CHECKING:  # pragma: no cover
+    # chartparse.instrument and chartparse.sync import this module, so importing names from them
+    # at module level makes `import chartparse.instrument` / `import chartparse.sync` fail with a
+    # circular ImportError when either is the first chartparse module imported. They are needed
+    # here only for annotations and inside build_events_from_data, which imports them itself.
+    from chartparse.instrument import StarPowerEvent, TrackEvent
+    from chartparse.sync import AnchorEvent, BPMEvent, BPMEvents, TimeSignatureEvent
 
 logger = logging.getLogger(__name__)
 
@@ -191,6 +197,9 @@ def build_events_from_data(
     | list[chartparse.globalevents.SectionEvent]
     | list[chartparse.globalevents.TextEvent]
 ):
+    from chartparse.instrument import StarPowerEvent, TrackEvent
+    from chartparse.sync import AnchorEvent, BPMEvent, BPMEvents, TimeSignatureEvent
+
     def data_to_anchor_events(datas: Iterable[AnchorEvent.ParsedData]) -> list[AnchorEvent]:
         events: list[AnchorEvent] = []
         for data in datas:
